@@ -8,6 +8,7 @@
       eraseKeepsCount  the erase loop counts down a variable other than the one passed to move_rel afterwards
       scrollGuard      scrollrect refuses rectangles whose DECSTBM / DECSLRM margins would be degenerate
       printnGuard      tickit_term_printn (src/term.c) returns at once for len == 0
+      scrollCellGuard  the one-line ICH/DCH path of scrollrect refuses when its right margin would be column 1
   * slrmAccept: the DECRPM reply values that on_modereport case 69 takes for DECSLRM support (the disjunction of
     `value == N` tests guarding `xd->cap.slrm = 1`); any other shape of the condition is reported as untranslatable
     and the values of the unchanged tree (1, 2) are kept, so that the correspondence check exposes the difference.
@@ -103,6 +104,8 @@ def run(ctx):
         info["untranslatable"].append("xterm:erase-loop-shape")
     sc = fn_body("scrollrect") or ""
     guard = bool(re.search(r"if\s*\(\s*rect->lines\s*<\s*2\s*\|\|\s*\(\s*\(\s*rect->left\s*>\s*0\s*\|\|\s*right\s*<\s*term_cols\s*\)\s*&&\s*rect->cols\s*<\s*2\s*\)\s*\)\s*return\s+false\s*;", sc))
+    # fixes/C09_scroll_one_cell.patch: the one-line ICH/DCH path refuses a right margin at column 1
+    cellguard = bool(re.search(r"if\s*\(\s*right\s*<\s*term_cols\s*&&\s*right\s*<\s*2\s*\)\s*return\s+false\s*;", sc))
     term = ctx.strip_c_comments(ctx.src("src/term.c"))
     mp = re.search(r"void\s+tickit_term_printn\s*\([^)]*\)\s*\{(.*?)\n\}", term, re.S)
     if not mp:
@@ -125,6 +128,7 @@ def run(ctx):
     body += f"def eraseChunk : Nat := {chunk}\n"
     body += f"def eraseKeepsCount : Bool := {'true' if keeps else 'false'}\n"
     body += f"def scrollGuard : Bool := {'true' if guard else 'false'}\n"
+    body += f"def scrollCellGuard : Bool := {'true' if cellguard else 'false'}\n"
     body += "end Tickit.Gen.XTermFacts\n"
     ctx.write("XTermFacts", body)
     facts.update({"eraseChunk": chunk, "eraseKeepsCount": keeps, "scrollGuard": guard, "printnGuard": pguard, "slrmAccept": accept})
